@@ -119,7 +119,13 @@ def segments(ctx, n):
         dt = seg_seg_distance(a0, a1, b0, b1)
         den_zero = cls in ("parallel_exact", "collinear", "zero_len_a", "zero_len_b", "zero_len_both")
         # conditioning: near-parallel segments lose digits in den; allow 1e-9*scale, exact classes 1e-12
+        # conditioning: the line-line solution loses digits like eps/sin(theta) for nearly parallel segments
+        u_, v_ = a1 - a0, b1 - b0
+        nu_, nv_ = np.hypot(*u_), np.hypot(*v_)
+        sin_t = abs(u_[0] * v_[1] - u_[1] * v_[0]) / (nu_ * nv_) if nu_ > 0 and nv_ > 0 else 1.0
         tol = (1e-12 if den_zero or cls in ("crossing", "tjunction") else 1e-9) * scale + 1e-9 * dt
+        if not den_zero and sin_t > 0:
+            tol += 50 * np.finfo(float).eps * scale / sin_t
         ctx.stat(f"closest_distance_excess/scale[{cls}]", (dl - dt) / scale)
         mech = None
         if dl - dt > tol:
